@@ -162,6 +162,35 @@ Fixpoint dv_eqb (a b : dv) : bool :=
   | _, _ => false
   end.
 
+(* the well-typed objects, decidably: a dataclass-annotated field holds None
+   or an instance of exactly that class with exactly its fields, any other
+   field holds no data object at any depth *)
+Fixpoint has_dom (d : dv) : bool :=
+  match d with
+  | DList l => existsb has_dom l
+  | DDict kvs => existsb (fun kv => match kv with (_, x) => has_dom x end) kvs
+  | DDom _ _ => true
+  | _ => false
+  end.
+
+Fixpoint fitsb (S : schema) (t : ftype) (d : dv) {struct d} : bool :=
+  match t with
+  | TOther => negb (has_dom d)
+  | TDom c =>
+    match d with
+    | DNull => true
+    | DDom c' fs =>
+      Nat.eqb c' c &&
+      (fix go (fields : list (str * ftype)) (fs : list (str * dv)) {struct fs} : bool :=
+         match fields, fs with
+         | [], [] => true
+         | (fk, ft) :: fl, (k, x) :: r => str_eqb k fk && fitsb S ft x && go fl r
+         | _, _ => false
+         end) (fields_of S c) fs
+    | _ => false
+    end
+  end.
+
 (* ---- correspondence: one data object through the three codecs.  For each
    codec the harness reports the tree the library decodes from the library's
    encoding of _asdict() (which must be _asdict() itself: the codec
@@ -171,24 +200,18 @@ Record case := { k_schema : schema;
                  k_obj : dv;
                  k_asdict : value;                       (* observed dom._asdict() *)
                  k_wire : list value;                    (* observed loads(dumps(asdict)), per codec *)
-                 k_back : list (res dv) }.               (* observed _from*(_as*()), per codec *)
+                 k_back : list (res dv);                 (* observed _from*(_as*()), per codec *)
+                 k_typed : bool }.                       (* the harness's own judgement: well-typed *)
 
 Definition check_case (k : case) : bool :=
   value_eqb (dictify (k_obj k)) (k_asdict k) &&
+  Bool.eqb (fitsb (k_schema k) (TDom (k_class k)) (k_obj k)) (k_typed k) &&
   forallb (fun v => value_eqb v (k_asdict k)) (k_wire k) &&
   list_eqb (res_eqb dv_eqb)
            (map (fun v => checked (k_class k) (datify (k_schema k) (TDom (k_class k)) v)) (k_wire k))
            (k_back k).
 
 (* branch classifier *)
-Fixpoint has_dom (d : dv) : bool :=
-  match d with
-  | DList l => existsb has_dom l
-  | DDict kvs => existsb (fun kv => match kv with (_, x) => has_dom x end) kvs
-  | DDom _ _ => true
-  | _ => false
-  end.
-
 Definition case_branches (k : case) : list nat :=
   match k_obj k with
   | DDom c fs =>
